@@ -70,6 +70,16 @@ structure Edge where
   rule : Str
   outs : List Str
   ins : List Str
+  exe : List Str := []     -- the words of the rule's command in front of `$ARGS` (the compiler that is run)
+  args : List Str := []    -- the words of the statement's `ARGS` binding
+  deriving DecidableEq, Repr
+
+/-- one compile group of `target_sources`: language, compiler command, parameters, sources ++ generated_sources -/
+structure Group where
+  language : Str
+  compiler : List Str
+  params : List Str
+  srcs : List Str
   deriving DecidableEq, Repr
 
 inductive TKind where
@@ -86,6 +96,7 @@ structure Target where
   files : List Str          -- `filename`
   priv : Str                -- private directory of the target with trailing slash (`filename[0] + ".p/"`)
   srcs : List Str           -- all `sources` ++ `generated_sources` of the `target_sources` blocks
+  groups : List Group := [] -- the compile groups of `target_sources` (blocks that have a `language`)
   deriving DecidableEq, Repr
 
 def phonyRule : Str := "phony".toList
@@ -119,7 +130,20 @@ def FilesExact (t : Target) (es : List Edge) : Prop :=
 
 def SourcesExact (t : Target) (es : List Edge) : Prop := SameSet t.srcs (consumed t es)
 
-def TargetOk (t : Target) (es : List Edge) : Prop := FilesExact t es ∧ SourcesExact t es
+/-- the statement runs the compiler of the group: rule `<language>_COMPILER…`, the group's compiler command, the
+group's parameters as `ARGS` -/
+def groupMatches (g : Group) (e : Edge) : Bool :=
+  startsWith e.rule (g.language ++ "_COMPILER".toList) && decide (e.exe = g.compiler) && decide (e.args = g.params)
+
+/-- per-group agreement: every source of a group is consumed by a compile statement of the target that runs the
+group's compiler with the group's parameters, and every input of a compile statement of the target is listed in
+such a group -/
+def GroupsExact (t : Target) (es : List Edge) : Prop :=
+  t.kind = .build →
+    (∀ g ∈ t.groups, ∀ s ∈ g.srcs, ∃ e ∈ es, isCompileFor t e = true ∧ s ∈ e.ins ∧ groupMatches g e = true) ∧
+    (∀ e ∈ es, isCompileFor t e = true → ∀ i ∈ e.ins, ∃ g ∈ t.groups, i ∈ g.srcs ∧ groupMatches g e = true)
+
+def TargetOk (t : Target) (es : List Edge) : Prop := FilesExact t es ∧ SourcesExact t es ∧ GroupsExact t es
 
 /-- a link or command statement that makes a user-visible file (not inside a private directory, not one of the
 backend's own `meson-internal__*` helpers) -/
@@ -138,7 +162,14 @@ def checkFiles (t : Target) (es : List Edge) : Bool :=
 
 def checkSources (t : Target) (es : List Edge) : Bool := sameSetB t.srcs (consumed t es)
 
-def checkTarget (t : Target) (es : List Edge) : Bool := checkFiles t es && checkSources t es
+def checkGroups (t : Target) (es : List Edge) : Bool :=
+  !decide (t.kind = .build) ||
+    (t.groups.all (fun g => g.srcs.all (fun s =>
+        es.any (fun e => isCompileFor t e && decide (s ∈ e.ins) && groupMatches g e))) &&
+     es.all (fun e => !isCompileFor t e ||
+        e.ins.all (fun i => t.groups.any (fun g => decide (i ∈ g.srcs) && groupMatches g e))))
+
+def checkTarget (t : Target) (es : List Edge) : Bool := checkFiles t es && checkSources t es && checkGroups t es
 
 def checkClaimed (ts : List Target) (es : List Edge) : Bool :=
   es.all (fun e => !(isTargetEdge e) || ts.any (fun t => touches t e))
